@@ -8,6 +8,8 @@ import Mathlib.Tactic.Linarith
 import Mathlib.Tactic.Ring
 import Mathlib.Tactic.Positivity
 import Mathlib.Data.Rat.Floor
+import Mathlib.Tactic.LinearCombination
+import Mathlib.Tactic.FieldSimp
 /-!
 # C07 — results depend only on geometry: orientation, origin, labelling invariance
 
@@ -42,44 +44,119 @@ def Orthogonal (R : Rot) : Prop := ∀ u v : V3, (rotRow R u).dot (rotRow R v) =
 
 /-- **C07 (orientation)**: a rigid rotation of the lattice vectors leaves the metric tensor unchanged. -/
 theorem metric_rot (m : M3) (R : Rot) (hR : Orthogonal R) : (M3.mulRot m R).metric = m.metric := by
-  sorry
+  have h : ∀ u v : V3, (rotRow R u).dot (rotRow R v) = u.dot v := hR
+  simp only [M3.metric, M3.mulRot, h]
 
 /-- orthogonality in coordinates: orthonormal columns… (sufficient condition, as checked by the harness) -/
 theorem orthogonal_of_rows (R : Rot)
     (h11 : R.c1.x^2 + R.c2.x^2 + R.c3.x^2 = 1) (h22 : R.c1.y^2 + R.c2.y^2 + R.c3.y^2 = 1) (h33 : R.c1.z^2 + R.c2.z^2 + R.c3.z^2 = 1)
     (h12 : R.c1.x*R.c1.y + R.c2.x*R.c2.y + R.c3.x*R.c3.y = 0) (h13 : R.c1.x*R.c1.z + R.c2.x*R.c2.z + R.c3.x*R.c3.z = 0)
     (h23 : R.c1.y*R.c1.z + R.c2.y*R.c2.z + R.c3.y*R.c3.z = 0) : Orthogonal R := by
-  sorry
+  intro u v
+  simp only [rotRow, V3.dot]
+  linear_combination (u.x * v.x) * h11 + (u.y * v.y) * h22 + (u.z * v.z) * h33
+    + (u.x * v.y + u.y * v.x) * h12 + (u.x * v.z + u.z * v.x) * h13 + (u.y * v.z + u.z * v.y) * h23
+
+/-- componentwise form of the `V3` addition / subtraction -/
+theorem v3_add_def (a b : V3) : a + b = ⟨a.x + b.x, a.y + b.y, a.z + b.z⟩ := rfl
+theorem v3_sub_def (a b : V3) : a - b = ⟨a.x - b.x, a.y - b.y, a.z - b.z⟩ := rfl
 
 /-- **C07 (origin)**: a common translation does not change the difference vector … -/
 theorem diff_translate (a b t : V3) : (b + t) - (a + t) = b - a := by
-  sorry
+  simp only [v3_sub_def, v3_add_def, V3.mk.injEq]
+  refine ⟨?_, ?_, ?_⟩ <;> ring
 
 /-- … nor the periodic distance … -/
 theorem pbcDistSq_translate (G : Sym3) (a b t : V3) : pbcDistSq G (a + t) (b + t) = pbcDistSq G a b := by
-  sorry
+  unfold pbcDistSq
+  rw [diff_translate]
 
 /-- … nor membership in a site sphere: site assignment is invariant when atoms and sites move together. -/
 theorem within_translate (G : Sym3) (r : ℚ) (s x t : V3) :
     Sites.within G r (s + t) (x + t) = Sites.within G r s x := by
-  sorry
+  unfold Sites.within
+  rw [pbcDistSq_translate]
 
 /-- re-wrapping a site after the translation (sites are stored in [0,1)) changes nothing either,
 away from ties -/
 theorem pbcDistSq_wrap_site (G : Sym3) (a b : V3) (n1 n2 n3 : ℤ)
     (hn : ∀ k : ℤ, (b - a).x ≠ k + 1/2 ∧ (b - a).y ≠ k + 1/2 ∧ (b - a).z ≠ k + 1/2) :
     minImageSqCert G (b - shiftBy a n1 n2 n3) = minImageSqCert G (b - a) := by
-  sorry
+  have h : b - shiftBy a n1 n2 n3 = shiftBy (b - a) (-n1) (-n2) (-n3) := by
+    simp only [v3_sub_def, shiftBy, V3.mk.injEq]
+    refine ⟨?_, ?_, ?_⟩ <;> push_cast <;> ring
+  rw [h]
+  exact minImageSqCert_shift G (b - a) (-n1) (-n2) (-n3) hn
 
 /-- **C07 (grids)**: translating a coordinate by `k` voxels rolls its voxel index by `k` modulo the grid size. -/
 theorem voxel_translate (n : Nat) (hn : 0 < n) (x : ℚ) (k : ℤ) :
     ⌊wrap (x + (k : ℚ) / n) * n⌋ = (⌊wrap x * n⌋ + k) % (n : ℤ) := by
-  sorry
+  have hN : (0 : ℚ) < (n : ℚ) := by exact_mod_cast hn
+  have hN' : (n : ℚ) ≠ 0 := ne_of_gt hN
+  obtain ⟨j, hj⟩ : ∃ j : ℤ, j = ⌊x⌋ - ⌊x + (k : ℚ) / n⌋ := ⟨_, rfl⟩
+  have hW : wrap (x + (k : ℚ) / n) * n = wrap x * n + ((k + (n : ℤ) * j : ℤ) : ℚ) := by
+    rw [G.C01.wrap_eq, G.C01.wrap_eq, hj]
+    push_cast
+    field_simp
+    ring
+  obtain ⟨h0, h1⟩ := G.C01.wrap_range (x + (k : ℚ) / n)
+  have hfl : ⌊wrap (x + (k : ℚ) / n) * n⌋ = ⌊wrap x * n⌋ + (k + (n : ℤ) * j) := by
+    rw [hW, Int.floor_add_intCast]
+  have hlo : 0 ≤ ⌊wrap (x + (k : ℚ) / n) * n⌋ := Int.floor_nonneg.mpr (mul_nonneg h0 (le_of_lt hN))
+  have hhi : ⌊wrap (x + (k : ℚ) / n) * n⌋ < (n : ℤ) := by
+    rw [Int.floor_lt]
+    push_cast
+    nlinarith
+  have hmod : (⌊wrap x * n⌋ + k) % (n : ℤ) = (⌊wrap x * n⌋ + (k + (n : ℤ) * j)) % (n : ℤ) := by
+    rw [← add_assoc, Int.add_mul_emod_self_left]
+  rw [hmod, ← hfl]
+  exact (Int.emod_eq_of_lt hlo hhi).symm
 
 /-- **C07 (site labelling)**: relabelling the sites by an injective map moves the counts with them. -/
 theorem countPair_relabel (rows : List Counts.Pair) (f : Int → Int) (hf : Function.Injective f) (i j : Int) :
     Counts.countPair (rows.map (fun p => (f p.1, f p.2))) (f i, f j) = Counts.countPair rows (i, j) := by
-  sorry
+  unfold Counts.countPair
+  rw [List.filter_map, List.length_map]
+  congr 1
+  apply List.filter_congr
+  intro p _
+  simp only [Function.comp, Prod.mk.injEq, hf.eq_iff, decide_eq_decide]
+  exact (Prod.ext_iff (x := p) (y := (i, j))).symm
+
+/-- generalisation over the running offset of `assignFrom` -/
+theorem assignFrom_unique (G : Sym3) (frac : ℚ) (x : V3) :
+    ∀ (sites : List (V3 × ℚ)) (off k : Nat) (p : V3 × ℚ), sites[k]? = some p →
+      Sites.within G (p.2 * frac) p.1 x = true →
+      (∀ j q, sites[j]? = some q → Sites.within G (q.2 * frac) q.1 x = true → j = k) →
+      Sites.assignFrom G frac off sites x = ((off + k : Nat) : Int) := by
+  intro sites
+  induction sites with
+  | nil => intro off k p hk; simp at hk
+  | cons hd rest ih =>
+    intro off k p hk hin huniq
+    obtain ⟨s, r⟩ := hd
+    cases k with
+    | zero =>
+      simp only [List.getElem?_cons_zero, Option.some.injEq] at hk
+      subst hk
+      unfold Sites.assignFrom
+      rw [if_pos hin]
+      simp
+    | succ k =>
+      have hhd : ¬ Sites.within G (r * frac) s x = true := by
+        intro hw
+        have := huniq 0 (s, r) (by simp) hw
+        omega
+      unfold Sites.assignFrom
+      rw [if_neg hhd]
+      have hk' : rest[k]? = some p := by simpa using hk
+      have hu' : ∀ j q, rest[j]? = some q → Sites.within G (q.2 * frac) q.1 x = true → j = k := by
+        intro j q hj hq
+        have := huniq (j + 1) q (by simpa using hj) hq
+        omega
+      rw [ih (off + 1) k p hk' hin hu']
+      congr 1
+      omega
 
 /-- **C07 (site order)**: if exactly the site at position `k` contains the atom, then after any
 reordering of the site list the assigned index is the new position of that site. -/
@@ -87,7 +164,10 @@ theorem assign_perm_sites (G : Sym3) (frac : ℚ) (sites : List (V3 × ℚ)) (x 
     (hk : sites[k]? = some p) (hin : Sites.within G (p.2 * frac) p.1 x = true)
     (huniq : ∀ j q, sites[j]? = some q → Sites.within G (q.2 * frac) q.1 x = true → j = k) :
     Sites.assign G frac sites x = k := by
-  sorry
+  have h := assignFrom_unique G frac x sites 0 k p hk hin huniq
+  unfold Sites.assign
+  rw [h]
+  simp
 
 /-- non-vacuity: a (3,4,5) rotation about z of a triclinic cell -/
 example :
